@@ -140,7 +140,9 @@ def c08_exec(plan):
                     ev["a"] = {"h": i, "i": k, "v": v}
                 else:
                     res = H[i][k]
-                    ev["a"] = {"h": i, "i": k}
+                    ev["a"] = {"h": i, "i": k, "dst": s.get("dst")}
+                    if s.get("dst") is not None:
+                        H[s["dst"]] = res
             elif op in ("setslice", "getslice"):
                 i = pick(u[0])
                 if i is None:
@@ -152,8 +154,10 @@ def c08_exec(plan):
                     ev["a"] = {"h": i, "slice": sl, "idx": idx, "rhs": desc, "bits": bits}
                     H[i][slice(*sl)] = val
                 else:
-                    ev["a"] = {"h": i, "slice": sl, "idx": idx}
+                    ev["a"] = {"h": i, "slice": sl, "idx": idx, "dst": s.get("dst")}
                     res = H[i][slice(*sl)]
+                    if s.get("dst") is not None:
+                        H[s["dst"]] = res
             elif op in ("setlist", "getlist"):
                 i = pick(u[0], lambda o: o.size > 0)
                 if i is None:
@@ -166,8 +170,10 @@ def c08_exec(plan):
                     ev["a"] = {"h": i, "idx": idx, "rhs": desc, "bits": bits}
                     H[i][list(idx)] = val
                 else:
-                    ev["a"] = {"h": i, "idx": idx}
+                    ev["a"] = {"h": i, "idx": idx, "dst": s.get("dst")}
                     res = H[i][list(idx)]
+                    if s.get("dst") is not None:
+                        H[s["dst"]] = res
             elif op == "setsize":
                 i = pick(u[0])
                 if i is None:
@@ -275,7 +281,9 @@ def c08_exec(plan):
                     raise _Skip()
                 k = 1 + u[1] % max(1, H[i].size)
                 res = H[i].split(k)
-                ev["a"] = {"h": i, "k": k}
+                ev["a"] = {"h": i, "k": k, "dst": s.get("dst") if res else None, "piece": (u[2] % len(res)) if res else None}
+                if res and s.get("dst") is not None:
+                    H[s["dst"]] = res[u[2] % len(res)]
             elif op in ("int", "sint", "str", "iter", "hw"):
                 i = pick(u[0], (lambda o: o.size > 0) if op == "sint" else None)
                 if i is None:
@@ -393,11 +401,11 @@ class C08(Machine):
                 else:
                     pb.step(c, op="concat", u=u, other="int", int=small_int(rng), dst=dst)
             elif r < 0.90:
-                pb.step(c, op="split", u=u)
+                pb.step(c, op="split", u=u, dst=dst if rng.random() < 0.6 else None)
             elif r < 0.93:
-                pb.step(c, op="getbit", u=u)
+                pb.step(c, op="getbit", u=u, dst=dst if rng.random() < 0.5 else None)
             elif r < 0.96:
-                pb.step(c, op=rng.choice(["getslice", "getslice", "getlist"]), u=u)
+                pb.step(c, op=rng.choice(["getslice", "getslice", "getlist"]), u=u, dst=dst if rng.random() < 0.7 else None)
             else:
                 pb.step(c, op=rng.choice(["int", "sint", "str", "iter", "hw"]), u=u)
         return pb.finish(rng)
@@ -461,6 +469,8 @@ class C08(Machine):
                     v, n = cells[hc[a["h"]]]
                     exp_res = {"bits": [(v >> (a["i"] % n)) & 1, 1]}
                     has_res = True
+                    if a.get("dst") is not None:
+                        hc[a["dst"]] = fresh(((v >> (a["i"] % n)) & 1, 1))
                     wcls = _wc(n) + ("neg" if a["i"] < 0 else "")
                 elif op in ("setslice", "setlist"):
                     cell = hc[a["h"]]
@@ -476,6 +486,10 @@ class C08(Machine):
                     r = R.select(cells[hc[a["h"]]], a["idx"])
                     exp_res = {"bits": [r[0], r[1]]}
                     has_res = True
+                    if a.get("dst") is not None:
+                        hc[a["dst"]] = fresh(r)
+                        if len(a["idx"]) == cells[hc[a["h"]]][1] if hc[a["h"]] in cells else False:
+                            probe("full_range_read_kept_in_a_handle")
                     wcls = _wc(cells[hc[a["h"]]][1]) + _sc(a)
                 elif op == "setsize":
                     cell = hc[a["h"]]
@@ -535,8 +549,11 @@ class C08(Machine):
                     hc[a["dst"]] = fresh(r)
                     wcls = _wc(r[1])
                 elif op == "split":
-                    exp_res = [{"bits": list(p)} for p in R.split(cells[hc[a["h"]]], a["k"])]
+                    pieces = R.split(cells[hc[a["h"]]], a["k"])
+                    exp_res = [{"bits": list(p)} for p in pieces]
                     has_res = True
+                    if a.get("dst") is not None and a.get("piece") is not None:
+                        hc[a["dst"]] = fresh(pieces[a["piece"]])
                 elif op == "int":
                     exp_res = R.to_int(cells[hc[a["h"]]])
                     has_res = True
